@@ -21,6 +21,7 @@ RULE = ("case = random field layout (0-2 levels of inheritance or a diamond B <-
         "field == converted input iff key present (explicit None included) else default / fresh factory result not "
         "shared between two results; MissingField names the first missing field in declaration order. "
         "distinct_nontrivial = distinct (layout signature, key subset) pairs.")
+RULE += " Additions: undecorated base class annotating member names in another order; bare re-annotation of inherited members; TypedDict inheritance with mixed totality (also under PEP 563)."
 ASSUMPTIONS = ["key subsets are exhaustive per layout; layouts and the wire value chosen for a present key are random",
                "field types are drawn from a 10-entry typed pool with known conversions"]
 BUDGET_S = {"quick": 120, "thorough": 900}
